@@ -8,9 +8,12 @@ CONSTANTS
   Dump = TRUE
 INVARIANT KeyImpliesPyEq
 INVARIANT MergeExplained
+INVARIANT HitReturnsFirst
 INVARIANT SameTextShared
 INVARIANT FixedKeySound
 INVARIANT FixedKeyShares
+INVARIANT NearMissesNotShared
+INVARIANT TaggingLemma
 INVARIANT ObsRefinesEq
 INVARIANT ObsIdempotent
 INVARIANT PublishConst
